@@ -6,6 +6,7 @@ import PatchModel.Spec.Cpp
 import PatchModel.Lemmas.Cpp
 import PatchModel.Lemmas.Render
 import PatchModel.Props.C03
+import PatchModel.Lemmas.ApplyLoop
 namespace PatchModel.C20
 open PatchModel PatchModel.Cpp
 
@@ -289,5 +290,77 @@ example (sym : Bytes) (hsym : sym ≠ []) :
     after `#endif` / `#ifndef`), inElseOfIfndef and ends with one open conditional -/
 example : (defineLoop altFile [88] altHunk.lines 0 .outside {}).map (fun r => (r.2.1, r.2.2)) =
     some (2, DefState.inElseOfIfndef) := by decide
+
+/-- **C20 at the level of bytes**: under the hypotheses of `C20_merge` (all lines terminated) the file written is the lines of the
+    merge one by one — the writer's rule has nothing to add — so a preprocessor reading them gets what `C20_merge` says -/
+theorem C20_merge_bytes (file : List Line) (hs : List Hunk) (p0 : Patch) (o : ApplyOpts) (tty : Option (List Bool)) (sym : Bytes)
+    (hv : Valid file 0 0 hs) (hp : p0.hunks = hs)
+    (hsym : sym ≠ []) (hD : o.define = sym) (hR : o.reverse = false) (hF : 0 ≤ o.maxFuzz)
+    (hfileT : ∀ l ∈ file, l.newline ≠ .none)
+    (hpatchT : ∀ h ∈ hs, ∀ pl ∈ h.lines, pl.line.newline ≠ .none)
+    (hfileD : ∀ l ∈ file, notDirective sym l)
+    (hpatchD : ∀ h ∈ hs, ∀ pl ∈ h.lines, notDirective sym pl.line) :
+    ∃ r, applyPatch file p0 o tty = .ok r ∧
+      render o.newlineOutput r.out = renderLines o.newlineOutput (r.out.map Out.line) ∧
+      (∀ x ∈ r.out, x.line.newline ≠ .none) ∧
+      cppEval sym true (r.out.map Out.line) = some (splice file 0 hs) ∧
+      cppEval sym false (r.out.map Out.line) = some file := by
+  obtain ⟨r, h1, h2, h3, _⟩ := C20_merge file hs p0 o tty sym hv hp hsym hD hR hF hfileT hpatchT hfileD hpatchD
+  have hT := ApplyLoop.applyPatch_all_terminated hfileT (by rw [hp]; exact hpatchT) h1
+  exact ⟨r, h1, Render.render_of_all_terminated _ hT, hT, h2, h3⟩
+
+/-! ### the writer's rule (D97) under `-D`: a directive is never glued to an unterminated line -/
+
+theorem renderNewline_is_newline (mode : NewlineOutput) (nl : NewLine) (h : nl ≠ .none) :
+    renderNewline mode nl = [NL] ∨ renderNewline mode nl = [CR, NL] := by
+  cases nl <;> cases mode <;> simp_all [renderNewline]
+
+/-- wherever a directive item (a directive line, or a bare terminator of `write_define_hunk`) is written behind an item whose
+    line has no newline — inside a hunk, between two hunks, behind a copied last line of the file — the bytes of that line are
+    followed by a newline (LF, or CR LF) and only then by the text of the directive: `write_define_hunk` writes its own
+    terminator inside a hunk (a bare item, to which the writer adds nothing), the line writer adds one everywhere else -/
+theorem unterminated_line_then_directive (mode : NewlineOutput) (pre : List Out) (o : Out) (t : Bytes) (nl : NewLine)
+    (rest : List Out) (hn : o.line.newline = .none) (hnl : nl ≠ .none) :
+    ∃ a sep b, (sep = [NL] ∨ sep = [CR, NL]) ∧
+      render mode (pre ++ [o] ++ Out.directive ⟨t, nl⟩ :: rest) = a ++ o.line.content ++ sep ++ t ++ b := by
+  obtain ⟨a, ha⟩ : ∃ a, render mode (pre ++ [o]) = a ++ o.line.content := by
+    refine ⟨render mode pre ++ renderLines mode ((Render.glueL pre [o]).map Out.line), ?_⟩
+    rw [Render.render_append, Render.render_singleton, Render.renderLine_of_none mode o.line hn]
+  obtain ⟨tl, htl⟩ := Render.terminateInner_cons_head (Out.directive ⟨t, nl⟩) rest
+  have hd : render mode (Out.directive ⟨t, nl⟩ :: rest) =
+      t ++ renderNewline mode nl ++ renderLines mode (tl.map Out.line) := by
+    rw [render, htl]; simp [Out.line, renderLine]
+  by_cases hb : (Out.directive ⟨t, nl⟩).isBare = true
+  · have ht : t = [] := by simpa [Out.isBare] using hb
+    refine ⟨a, renderNewline mode nl, renderLines mode (tl.map Out.line), renderNewline_is_newline mode nl hnl, ?_⟩
+    rw [Render.render_append, Render.glueL_of_bare (by intro x hx; simp at hx; rw [← hx]; exact hb), ha, hd, ht]
+    simp
+  · have hb' : (Out.directive ⟨t, nl⟩).isBare = false := by simpa using hb
+    refine ⟨a, renderNewline mode .lf, renderNewline mode nl ++ renderLines mode (tl.map Out.line),
+      renderNewline_is_newline mode .lf (by simp), ?_⟩
+    rw [(Render.render_terminates_inner mode pre o _ rest hn hb').1, ha, hd]
+    simp
+
+/-- "a\nc" (no final newline), `-D X`, the hunk ` c` (no newline) `+d`: `write_define_hunk` writes its own terminator behind "c"
+    and the writer adds no second one -/
+theorem define_behind_unterminated_context :
+    ∃ r, applyPatch [⟨[97], .lf⟩, ⟨[99], .none⟩]
+        { hunks := [⟨⟨2, 1⟩, ⟨2, 2⟩, [⟨SP, ⟨[99], .none⟩⟩, ⟨PLUS, ⟨[100], .lf⟩⟩]⟩] } { define := [88] } none = .ok r ∧
+      render .lf r.out = [97, 10, 99, 10] ++ dIfdef [88] ++ [10, 100, 10] ++ dEndif ++ [10] := by
+  refine ⟨_, rfl, ?_⟩
+  rw [show dIfdef [88] = [35, 105, 102, 100, 101, 102, 32, 88] from by unfold dIfdef; rw [str_ifdef]; rfl,
+    show dEndif = [35, 101, 110, 100, 105, 102] from by unfold dEndif; rw [str_endif]]
+  decide
+
+/-- the same file, the insertion `+d` behind its last line (no context): the copied line "c" is followed directly by the `#ifdef` of the
+    hunk; the writer puts the newline between them (it used to be "c#ifdef X") -/
+theorem define_behind_unterminated_copy :
+    ∃ r, applyPatch [⟨[97], .lf⟩, ⟨[99], .none⟩]
+        { hunks := [⟨⟨2, 0⟩, ⟨3, 1⟩, [⟨PLUS, ⟨[100], .lf⟩⟩]⟩] } { define := [88] } none = .ok r ∧
+      render .lf r.out = [97, 10, 99, 10] ++ dIfdef [88] ++ [10, 100, 10] ++ dEndif ++ [10] := by
+  refine ⟨_, rfl, ?_⟩
+  rw [show dIfdef [88] = [35, 105, 102, 100, 101, 102, 32, 88] from by unfold dIfdef; rw [str_ifdef]; rfl,
+    show dEndif = [35, 101, 110, 100, 105, 102] from by unfold dEndif; rw [str_endif]]
+  decide
 
 end PatchModel.C20
